@@ -39,3 +39,16 @@ Fixpoint moves_of (vs : list nt) : list var :=
 Definition indicator (I : inst) (ms : list var) : list Z :=
   map (fun v => if existsb (var_eqb v) ms then 1 else 0) (vars I).
 
+
+(* correspondence of the reference itself: the harness' brute-force VRPTW solver evaluates routes with a
+   Python function; its visits and cost are compared with vrptw_route / route_cost *)
+Definition refcase := (graph * list nat * option (list nt * Z))%type.
+Definition check_refcase (c : refcase) : list nat :=
+  match c with
+  | (g, cs, ir) =>
+      chk 1 (option_eqb (fun a b : list nt * Z => list_eqb nt_eqb (fst a) (fst b) && (snd a =? snd b))
+                        (match vrptw_route g cs with
+                         | Some vs => Some (vs, route_cost g 0 (cs ++ [0%nat]))
+                         | None => None
+                         end) ir)
+  end.
